@@ -110,6 +110,16 @@ Definition d_build (a : args) : list (list Z) :=
   match build_of a with Some p => [enc_col (logical p)] | None => bad end.
 Definition s_build (a : args) : list (list Z) :=
   match a with _ :: col :: _ => [col] | _ => bad end.
+(* builder call sequences: [hdr] ([step] [column])*  ->  the concatenation of the step columns
+   (column encoding: n v_1 .. v_n, so the concatenation is  (sum of the n)  followed by the bodies) *)
+Fixpoint seq_cols (l : args) : Z * list Z :=
+  match l with
+  | _ :: col :: r => let '(n, body) := seq_cols r in ((hd 0%Z col + n)%Z, (tl col ++ body)%list)
+  | _ => (0%Z, [])
+  end.
+Definition s_buildseq (a : args) : list (list Z) :=
+  match a with [] => bad | _ :: steps => let '(n, body) := seq_cols steps in [n :: body] end.
+
 Definition d_buildphys (a : args) : list (list Z) :=
   match build_of a with Some p => enc_arr p | None => bad end.
 
@@ -166,4 +176,5 @@ Definition ops_C02 : list (string * opfun) :=
     ("c02.eq"%string, d_eq); ("c02.eq.spec"%string, s_eq);
     ("c02.slice"%string, d_slice); ("c02.slice.spec"%string, s_slice);
     ("c02.build"%string, d_build); ("c02.build.spec"%string, s_build); ("c02.buildphys"%string, d_buildphys);
+    ("c02.buildseq.spec"%string, s_buildseq);
     ("c02.congr.post"%string, p_congr); ("c02.commute.post"%string, p_commute) ].
